@@ -4,7 +4,7 @@ Usage: try_seeds_scratch.py <dir> [--all]  — dir holds Cxx/{a,b}.patch.diff"""
 import os, re, sys, json, shutil, subprocess, hashlib, glob
 from multiprocessing import Pool
 ROOT = os.path.dirname(os.path.dirname(os.path.abspath(__file__)))
-SCRATCH = "/tmp/ckc-seedtry"
+SCRATCH = "/tmp/ckc-seedtry-%d" % os.getpid()
 ALL = "--all" in sys.argv
 PROPS = ["C%02d" % i for i in range(1, 21)]
 
@@ -35,7 +35,7 @@ def one(path):
 
 
 if __name__ == "__main__":
-    d = sys.argv[1]
+    d = os.path.abspath(sys.argv[1])
     files = sorted(glob.glob(os.path.join(d, "C*", "[a-z].patch.diff")))
     res = {}
     with Pool(5) as pool:
@@ -47,4 +47,5 @@ if __name__ == "__main__":
             print(name, "CAUGHT" if st.get("rc") == 1 else "MISSED", json.dumps(st.get("alarms", out), ensure_ascii=False)[:600], ("others: %s" % others) if ALL else "", flush=True)
     json.dump(res, open(os.path.join(d, "TRY.json"), "w"), indent=1)
     missed = sorted(k for k, v in res.items() if v.get(k[:3], {}).get("rc") != 1)
+    shutil.rmtree(SCRATCH, ignore_errors=True)
     print("seeds: %d missed: %s" % (len(res), missed))
